@@ -1,12 +1,14 @@
 package main
 
 import (
+	"go/token"
+	"go/types"
 	"golang.org/x/tools/go/ssa"
 )
 
 func init() {
 	register("C20", []string{"./record"}, runC20)
-	propExplain["C20"] = "Decides the ordering/gating clause of C20 in record.LogWriter: the snapshot of sync waiters is taken before the written-offset is read (waiters never cover bytes that were not picked up); in flushPending every write and the fsync execute only where the accumulated error is nil, waiters are popped only after the fsync decision, with the accumulated (not a constant) error; a waiter's error slot is stored before its WaitGroup is released; Close syncs before closing; only the flush loop pops waiters. Does not decide timer interleavings."
+	propExplain["C20"] = "Decides the ordering/gating clause of C20 in record.LogWriter: the snapshot of sync waiters is taken before the written-offset is read (waiters never cover bytes that were not picked up); in flushPending every write and the fsync execute only where the accumulated error is nil, waiters are popped only after the fsync decision, with the accumulated (not a constant) error; a waiter's error slot is stored before its WaitGroup is released; Close syncs before closing; only the flush loop pops waiters. (L1) the flusher's accumulated error, its queue of full blocks and its close flag — from which a waiter's acknowledgement is computed — are accessed only with flusher.Mutex held (lockset over package record; the constructor and the read after <-flusher.closed are the justified contexts). Does not decide timer interleavings."
 }
 
 // namedErrCell returns the local cell of the (named) error result of fn.
@@ -27,6 +29,7 @@ func namedErrCell(fn *ssa.Function) ssa.Value {
 func runC20(c *Ctx) { runC20Core(c) }
 
 func runC20Core(c *Ctx) {
+	runC20L1(c)
 	// C20.O1: flushLoop: snapshotForPop ≺ the written.Load that bounds the data slice
 	if fn := c.Fn("C20.O1", "rec.(*LogWriter).flushLoop"); fn != nil {
 		fl := NewFlow(c.P).After("did:snapshotForPop", MethodOn("snapshotForPop", "pendingSyncs"))
@@ -161,4 +164,45 @@ func c20CloseInternal(c *Ctx, rule string) {
 		ok := len(args) >= 2 && !isNilConst(args[len(args)-1])
 		c.Ob(rule, fn, "external callback receives the close-time sync error", c.P.Pos(in.Pos()), ok, "")
 	}
+}
+
+var c20L1Held = map[string]string{
+	"rec.NewLogWriter": "constructor: the LogWriter is not shared before it returns (the flush loop is started by its last statement)",
+}
+
+// runC20L1: the flusher's accumulated error, its queue of full blocks and its close flag are
+// shared between the writer goroutine(s) and the flush loop; they are accessed only with
+// flusher.Mutex held (the acknowledgement a sync waiter receives is computed from them).
+func runC20L1(c *Ctx) {
+	fl := c.Field("C20.L1", "rec.LogWriter.flusher")
+	st, _ := fl.Type().Underlying().(*types.Struct)
+	if st == nil {
+		c.Unresolved("C20.L1", "LogWriter.flusher is not a struct")
+		return
+	}
+	var prot []*types.Var
+	for i := 0; i < st.NumFields(); i++ {
+		switch st.Field(i).Name() {
+		case "err", "pending", "close":
+			prot = append(prot, st.Field(i))
+		}
+	}
+	if len(prot) != 3 {
+		c.Unresolved("C20.L1", "flusher.err / pending / close not found")
+		return
+	}
+	funcs := pkgFuncs(c, pkgAlias["rec"])
+	site := fieldSites("LogWriter.flusher", prot...)
+	// `<-flusher.closed` also grants exclusive access: the channel is closed by the flush loop's
+	// deferred exit, after which nothing else writes these fields (Close is not concurrent with
+	// writes); closeInternal reads flusher.err right after it.
+	flushLoopGone := M{Desc: "<-flusher.closed", F: func(in ssa.Instruction) bool {
+		u, ok := in.(*ssa.UnOp)
+		return ok && u.Op == token.ARROW && fieldNamed(u.X, "closed")
+	}}
+	ls := &LockSet{c: c, Rule: "C20.L1", IsLock: Or(mutexIn(fl, "Lock"), flushLoopGone), IsUnlock: mutexIn(fl, "Unlock"), Funcs: funcs, HeldAtEntry: prefixKeys(c20L1Held), Site: site}
+	ls.Run()
+	n := countSites(funcs, site)
+	c.Note("C20.L1: %d accesses to flusher.err/pending/close analysed", n)
+	c.Ob("C20.L1", nil, "flusher-mutex-protected field accesses analysed", "", n >= 8, "")
 }
